@@ -26,9 +26,9 @@ def forward_formulas(fx):
         return None
     names = {s.name: s for c in comps for s in c.free_symbols}
     need = ['geodeticCoordinates.latitude', 'geodeticCoordinates.longitude', 'geodeticCoordinates.altitude', 'this.ellipsoid_.a', 'this.ellipsoid_.e2']
-    if any(n not in names for n in need):
+    if any(n not in names for n in need[:3]):
         return None
-    lat, lon, alt, a, e2 = [names[n] for n in need]
+    lat, lon, alt, a, e2 = [names.get(n, sp.Symbol(n, real=True)) for n in need]
     return {'fn': f, 'X': comps[0], 'Y': comps[1], 'Z': comps[2], 'lat': lat, 'lon': lon, 'alt': alt, 'a': a, 'e2': e2}
 
 
